@@ -133,7 +133,7 @@ func (c *Ctx) slotThroughPhi(v ssa.Value, exs map[*ssa.Function]*extractor) (*sl
 // gemmRoles: in a gate function, which parameters feed the input Gemm (x, W, Wb) and the hidden Gemm (h, R, Rb).
 type gateRoles struct {
 	x, w, wb, h, r, rb int // parameter indices (-1 unknown)
-	ok              bool
+	ok                 bool
 }
 
 func (c *Ctx) gateRolesOf(f *ssa.Function, isTimeSlice func(paramIdx int) bool) gateRoles {
